@@ -176,6 +176,37 @@ def r1_layout(ck, P):
             ck.ok(R, 'writer: %s(width=%s, phases=%s) at offset %s' % (c.callee, ew, en, eoff))
         else:
             ck.violation(R, f.name, 'table written at offset %s' % eoff, 'the %s-table is written with width/phases/offset %s / %s; the layout needs width %s, %s phases at offset %s' % ('x' if ew == W else 'y', [str(v) for v in ints], [str(p[1]) if p else None for p in pi], ew, en, eoff), c.loc())
+    # bulk copies into the block (a table filled by copying another one): offset and length must be those of a whole table,
+    # under the equalities the copy is guarded by
+    for c in f.calls():
+        if not (c.callee or '').startswith(('llvm.memcpy', 'llvm.memmove')) or len(c.a) < 3:
+            continue
+        dp = S.ptr_index(c.a[0]) if f.v(f.strip_casts(c.a[0])) is not None and f.v(f.strip_casts(c.a[0])).op == 'getelementptr' else None
+        if dp is None:
+            continue
+        ln = S.ev(c.a[2])
+        eqs = {}
+        for t, s_ in f.guard_edges(c.bb.id):
+            if t.op != 'br' or not t.a:
+                continue
+            cc, pred, ops = f.cond(t.a[0])
+            if cc is None or cc.op != 'icmp' or pred != 'eq' or t.d['succ'][0] != s_:
+                continue
+            a_, b_ = S.ev(ops[0]), S.ev(ops[1])
+            if a_ is not None and b_ is not None and a_.is_Symbol and b_.is_Symbol and {a_, b_} <= {W, H, BX, BY}:
+                eqs[b_] = a_
+        tables_ = [(sympy.Integer(4), 4 * W * 2 ** BX, 'x'), (4 + W * 2 ** BX, 4 * H * 2 ** BY, 'y')]
+        hit = None
+        for off, nbytes, nm in tables_:
+            if _eq(dp[1], off):
+                hit = (nm, nbytes)
+        if hit is None or ln is None:
+            ck.violation(R, f.name, 'bulk copy into the block', 'the writer copies %s bytes to offset %s of the block, which is not the start of a table' % (ln, dp[1]), c.loc()); continue
+        want = hit[1].subs(eqs, simultaneous=True); got = ln.subs(eqs, simultaneous=True)
+        if _eq(got, want):
+            ck.ok(R, 'writer: %s-table filled by a copy of %s bytes' % (hit[0], hit[1]))
+        else:
+            ck.violation(R, f.name, 'bulk copy into the %s-table' % hit[0], 'the writer fills the %s-table by copying %s bytes; under the conditions of that branch (%s) the table holds %s bytes: the rest of the table is left unwritten, or the copy runs past the end of the block' % (hit[0], got, ', '.join('%s == %s' % kv for kv in eqs.items()) or 'none relating the subsample bits', want), c.loc())
     # acceptance test
     sf = P.fn('pixman_image_set_filter'); ck.saw(sf)
     S2 = Sym(P, sf)
